@@ -82,12 +82,13 @@ type domRun struct {
 	evals  int
 	sizes  []int
 	rows   []selRow
+	combos int // builder-kind combinations per size: 3 = all, 1 = one, rotating with case and size
 }
 
 // rp is the replay object of a finding: everything TestDomainCases needs to run this case again.
 func (dr *domRun) rp(ci int, c domCase, extra map[string]any) map[string]any {
 	m := map[string]any{"test": "TestDomainCases", "seed": dr.seed, "offset": ci, "case": c, "probes": dr.probes,
-		"sizes": dr.sizes, "table": dr.rows}
+		"sizes": dr.sizes, "table": dr.rows, "combos": dr.combos}
 	for k, v := range extra {
 		m[k] = v
 	}
@@ -327,14 +328,26 @@ func (dr *domRun) oneCase(ci int, c domCase, files bool, conv string) {
 	}
 
 	// (B) the whole pipeline at every size across the thresholds
+	var executed []int
 	for si, target := range sizes {
-		nd, ns := max(len(c.Ref.D), target), max(len(c.Ref.S), target)
-		nk, nr := max(len(c.Ref.K), min(target, 3)), max(len(c.Ref.R), min(target, 2))
-		if si > 0 && nd == len(c.Ref.D) && ns == len(c.Ref.S) {
+		if si > 0 && target <= len(c.Ref.D) && target <= len(c.Ref.S) {
 			continue // nothing to pad: same as the previous size
 		}
+		executed = append(executed, si)
+	}
+	// the loader (files) is used at two of the sizes, the converter command at one
+	fileAt := map[int]bool{executed[ci%len(executed)]: true, executed[(ci/2+1)%len(executed)]: true}
+	convAt := executed[(ci/3)%len(executed)]
+	for _, si := range executed {
+		target := sizes[si]
+		nd, ns := max(len(c.Ref.D), target), max(len(c.Ref.S), target)
+		nk, nr := max(len(c.Ref.K), min(target, 3)), max(len(c.Ref.R), min(target, 2))
 		res.Seen(fmt.Sprintf("%v/%d", c.Ref, target))
-		for combo := range 3 {
+		for cn := range dr.combos {
+			combo := cn
+			if dr.combos < 3 {
+				combo = (ci + si + cn) % 3
+			}
 			r := rng(dr.seed, ci, target, combo)
 			db, sb := domainBuilders[combo], suffixBuilders[(combo+si)%3]
 			D, S := padded("d", c.Ref.D, nd, r), padded("s", c.Ref.S, ns, r)
@@ -378,7 +391,11 @@ func (dr *domRun) oneCase(ci int, c domCase, files bool, conv string) {
 					if got := typeNames(ds0); !slices.Equal(got, want) {
 						res.DriftNote(vio.Finding{Key: "domainset.select/matcher", Behaviour: ci, Text: fmt.Sprintf("%s: matchers %v, model %v", what, got, want)})
 					}
-					res.Count("sel:"+strings.Join(want, "+"), 1)
+					for i, w := range want {
+						if i == 0 || want[i-1] != w {
+							res.Count("matcher:"+w, 1)
+						}
+					}
 				}
 			}
 			if !dr.probe(ci, "domainset.match/built", what+" -> "+strings.Join(typeNames(ds0), "+"), ds0, exp, replay) {
@@ -409,7 +426,7 @@ func (dr *domRun) oneCase(ci int, c domCase, files bool, conv string) {
 			replay["text"] = t1m
 			b1, err := domainset.BuilderFromText(t1m)
 			if err != nil {
-				if c.Ref.n() == 0 && nd+ns+nk+nr == 0 {
+				if nd+ns+nk+nr == 0 {
 					res.Count("empty-set-text-refused", 1)
 					continue
 				}
@@ -451,6 +468,10 @@ func (dr *domRun) oneCase(ci int, c domCase, files bool, conv string) {
 				return
 			}
 			b3, err := domainset.BuilderFromText(t2)
+			if err != nil && nd+ns+nk+nr == 0 {
+				res.Count("empty-set-text-refused", 1) // a text form without rule lines is "empty domain set"
+				continue
+			}
 			if err != nil {
 				res.Violation(vio.Finding{Key: "domainset.text/refused", Behaviour: ci,
 					Text: fmt.Sprintf("%s -> text -> gob -> text: refused: %v", what, err), Replay: replay})
@@ -465,11 +486,11 @@ func (dr *domRun) oneCase(ci int, c domCase, files bool, conv string) {
 				res.DriftNote(vio.Finding{Key: "domainset.text/lines", Behaviour: ci, Text: fmt.Sprintf("%s: text forms differ: %q vs %q", what, sorted(a), sorted(b))})
 			}
 
-			if files && combo == 0 {
+			if files && cn == 0 && fileAt[si] {
 				dr.viaFiles(ci, what, t1m, gob1, gob0, exp, replay)
-				if conv != "" {
-					dr.viaConverter(ci, what, conv, t1m, rules{D: D, S: S, K: K, R: R}, exp, replay)
-				}
+			}
+			if conv != "" && cn == 0 && si == convAt {
+				dr.viaConverter(ci, what, conv, t1m, rules{D: D, S: S, K: K, R: R}, exp, replay)
 			}
 		}
 	}
@@ -583,6 +604,8 @@ func newDomRun(t *testing.T, in *vio.Input, res *vio.Result) *domRun {
 	if !in.Param("probes", &dr.probes) || len(dr.probes) == 0 {
 		res.Break("no probes")
 	}
+	dr.combos = 3
+	in.Param("combos", &dr.combos)
 	in.Param("table", &dr.rows)
 	for _, row := range dr.rows {
 		dr.table[fmt.Sprintf("%s/%s/%d", row.Kind, row.Bk, row.N)] = row.Sel
